@@ -145,6 +145,7 @@ class RequirementsRelationAccessor(
         for i in self._find_relations(obj):
             ip = i.getparent()
             assert ip is not None
+            obj._model._loader.idcache_remove(i)
             ip.remove(i)
         obj._element.extend(value)
 
@@ -154,6 +155,7 @@ class RequirementsRelationAccessor(
         for i in self._find_relations(obj):
             parent = i.getparent()
             assert parent is not None
+            obj._model._loader.idcache_remove(i)
             parent.remove(i)
 
     def _find_relations(self, obj) -> list[etree._Element]:
